@@ -32,17 +32,19 @@ type Case struct {
 	PPL  int    `json:"ppl,omitempty"`  // pool prefix length
 	PL   int    `json:"pl,omitempty"`   // allocated prefix length / delegation length
 	// kind specific
-	Grace  uint64 `json:"grace,omitempty"`  // epoch
-	Gw     string `json:"gw,omitempty"`     // gateway address (dhcp4pool, pppoe, localpool), decimal
-	ResLo  int    `json:"reslo,omitempty"`  // dhcp4pool ReservedStart
-	ResHi  int    `json:"reshi,omitempty"`  // dhcp4pool ReservedEnd
-	Conc   int    `json:"conc,omitempty"`   // >0: concurrent stress with this many goroutines (ops are split round-robin)
-	Race   bool   `json:"race,omitempty"`   // same-subscriber race rounds (Conc = seed of the callers-per-round sequence)
-	Rounds int    `json:"rounds,omitempty"` // race: number of barrier-released rounds
-	Lease  bool   `json:"lease,omitempty"`  // dist: lease mode (epoch allocator inside)
-	Univ   int    `json:"univ,omitempty"`   // dist: subscribers 0..Univ-1 are observed after every op
-	Ops    []Op   `json:"ops"`
-	Origin string `json:"origin,omitempty"` // generator name
+	Grace  uint64    `json:"grace,omitempty"`  // epoch
+	Gw     string    `json:"gw,omitempty"`     // gateway address (dhcp4pool, pppoe, localpool), decimal
+	ResLo  int       `json:"reslo,omitempty"`  // dhcp4pool ReservedStart
+	ResHi  int       `json:"reshi,omitempty"`  // dhcp4pool ReservedEnd
+	Conc   int       `json:"conc,omitempty"`   // >0: concurrent stress with this many goroutines (ops are split round-robin)
+	Race   bool      `json:"race,omitempty"`   // same-subscriber race rounds (Conc = seed of the callers-per-round sequence)
+	Rounds int       `json:"rounds,omitempty"` // race: number of barrier-released rounds
+	Lease  bool      `json:"lease,omitempty"`  // dist: lease mode (epoch allocator inside)
+	Univ   int       `json:"univ,omitempty"`   // dist: subscribers 0..Univ-1 are observed after every op
+	Ops    []Op      `json:"ops"`
+	Wire   int       `json:"wire,omitempty"`   // localpool: 0 Go API, 1 Go API + circuit-style IDs, 2 peer HTTP API + circuit-style IDs, 3 peer HTTP API
+	Srv6   *Srv6Case `json:"srv6,omitempty"`   // srv6: the DHCPv6 server over its two pools (srv6.go)
+	Origin string    `json:"origin,omitempty"` // generator name
 }
 
 var propFlag = flag.String("prop", "C01", "C01|C05")
@@ -116,8 +118,8 @@ func opCoq(o Op) string {
 
 // outputs
 func oUnit(v *big.Int) string { return "OUnit " + rel(v) }
-func oErr(e int) string        { return fmt.Sprintf("OErr %d", e) }
-func oHolder(h int) string     { return fmt.Sprintf("OHolder %d", h) }
+func oErr(e int) string       { return fmt.Sprintf("OErr %d", e) }
+func oHolder(h int) string    { return fmt.Sprintf("OHolder %d", h) }
 func oStats(al, tot uint64, util float64, hasUtil bool) string {
 	num, den := "0", "0"
 	if hasUtil {
@@ -158,14 +160,15 @@ type pool interface {
 }
 
 type kind struct {
-	name    string
-	imports string                        // Coq modules the case files need (default: PoolSpec + PoolCheck)
-	runner  func(c Case) vh.Case          // kinds that do not go through the pool interface
-	header  string                        // Coq run function of the stream
-	cfg    func(c Case) string            // Coq term of the configuration
-	mk     func(c Case) (pool, error)     // build the real object
-	gen    func(r *vh.Rng, th bool) []Case // generated cases
-	onlyProp int                          // stream only emitted for this property (0 = both)
+	name     string
+	imports  string                          // Coq modules the case files need (default: PoolSpec + PoolCheck)
+	runner   func(c Case) vh.Case            // kinds that do not go through the pool interface
+	header   string                          // Coq run function of the stream
+	cfg      func(c Case) string             // Coq term of the configuration
+	mk       func(c Case) (pool, error)      // build the real object
+	gen      func(r *vh.Rng, th bool) []Case // generated cases
+	onlyProp int                             // stream only emitted for this property (0 = both)
+	shard    int                             // cases per Coq file for this stream (0 = the driver's default)
 }
 
 var kinds = map[string]*kind{}
@@ -313,7 +316,11 @@ func main() {
 		for _, c := range k.gen(r, cfg.Thorough()) {
 			out = append(out, run(c))
 		}
-		vh.Emit(cfg, name, header(k), footer(k), out, map[string]interface{}{
+		ecfg := cfg
+		if k.shard > 0 {
+			ecfg.Shard = k.shard
+		}
+		vh.Emit(ecfg, name, header(k), footer(k), out, map[string]interface{}{
 			"exhaustive": "origin 'exhaustive' = every operation sequence over the stream's alphabet up to the stated length on the smallest pools (quick: length 2 + a sample of length 3; thorough: length 4-5), followed by a fixed observation suffix (lookups, stats, fill to exhaustion)"})
 	}
 }
